@@ -259,3 +259,80 @@ def run_x07(oc, repo, seed, tier):
     oc.mc.append(core.model_check("MC_XIter", "MC_XIter_neg_ref.cfg", workers=2, expect_violation=True))
     core.trace_job(oc, X_ITER_JOB, repo, seed, tier)
     core.trace_job(oc, X_ITER_ASAN_JOB, repo, seed, tier)
+
+# ------------------------------------------------------------------------------------------------------------------
+# X08 bit packing (theta/include/bit_packing.hpp)
+# ------------------------------------------------------------------------------------------------------------------
+def bits_nontrivial(evs):
+    # a width is non-trivial when a field crossed a byte boundary at a non-zero offset and the block of 8 was exercised
+    return any(e["e"] == "Pack" and e["off"] > 0 and e["off"] + e["eb"] > 8 for e in evs) and any(e["e"] == "Block8" for e in evs)
+
+X_BITS_JOB = job("x_bits",
+    harness="x_bits_rec", inc=["common", "theta"], spec="TraceXBits", owners=["X08"], rec_timeout=300, val_timeout=2400,
+    files={Q: 8, T: 16}, par=4,
+    # widths 1..63 in 8 slices; thorough: the same slices twice with more random patterns
+    args=lambda tier, seed, k, profile: ["--seed", seed, "--wlo", 1 + 8 * (k % 8), "--whi", min(63, 8 + 8 * (k % 8)),
+                                         "--randoms", 2 if tier == Q else 12, "--rounds", 8 if tier == Q else 40],
+    nontrivial=bits_nontrivial,
+)
+X_BITS_MC = [dict(module="MC_XBits", cfg="MC_XBits.cfg", workers=2, timeout=1800)]
+
+@prop("X08", "model_checking",
+      "MC: pack_bits / unpack_bits transcribed on byte sequences against the bit-level contract for widths 1..8 x every value x offsets 0..7 x three "
+      "states of the first destination byte, with canaries (35 144 states): returned offset and pointer advance, neighbours untouched, bits before "
+      "the field kept, field = value most significant bit first and the rest of the last byte zero when the rest of the first byte was zero, round "
+      "trip, and two values packed in sequence = the bytes spec/Layout.tla (BitsMSB / PackBits) defines for the compressed theta image; the field is "
+      "NOT right when the first byte's tail was dirty (negative configuration: the documented precondition of the OR); traces: the real functions for "
+      "every width 1..63 at every offset 0..7, 10+ patterns (zero, all ones, single ones at both ends / middle / random, alternating, random), "
+      "destination zero / only first-byte tail zero with 0xFF behind / dirty, canary bytes on both sides; unpack from the packed bytes and from "
+      "arbitrary bytes placed flush against a PROT_NONE page; pack_bits_block8 / unpack_bits_block8 for every width: exactly `bits` bytes written into "
+      "a non-zeroed destination, equal to 8 single packs, round trip by block and by 8 single unpacks. A segment (one width) is non-trivial when a "
+      "field crossed a byte boundary at a non-zero offset",
+      ["63-bit values are four 16-bit limbs; the contract is stated bit by bit (TLC integers are 32-bit)",
+       "values always fit their width ('we assume that higher bits (which we are not packing) are zeros')",
+       "a dirty first-byte tail is outside the documented use: only the protection of the neighbouring bytes and of the bits before the field is demanded there"])
+def run_x08(oc, repo, seed, tier):
+    mc_all(oc, X_BITS_MC, tier)
+    oc.mc.append(core.model_check("MC_XBits", "MC_XBits_neg_dirty.cfg", workers=2, expect_violation=True))
+    core.trace_job(oc, X_BITS_JOB, repo, seed, tier)
+
+# ------------------------------------------------------------------------------------------------------------------
+# X09 shared integer / serde helpers of common/include
+# ------------------------------------------------------------------------------------------------------------------
+def common_nontrivial(evs):
+    kinds = {e["e"] for e in evs}
+    if "SerdeStr" in kinds:
+        return any(e["e"] == "SerdeStr" and len(e["items"]) > 1 and len(e["cutR"]) > 8 for e in evs)
+    if "Binom" in kinds:
+        return any(e["e"] == "Binom" and 1 < e["k"] < e["n"] - 1 for e in evs)
+    return bool(kinds & {"Zeros", "Erf"})
+
+X_COMMON_JOB = job("x_common",
+    harness="x_common_rec", inc=["common"], spec="TraceXCommon", owners=["X09"], rec_timeout=300, val_timeout=2400,
+    files={Q: 3, T: 12}, par=3,
+    args=lambda tier, seed, k, profile: ["--seed", seed, "--part", ["integers", "serde", "binomial"][k % 3], "--randoms", 20 if tier == Q else 120,
+                                         "--rounds", 6 if tier == Q else 24],
+    nontrivial=common_nontrivial,
+)
+X_COMMON_MC = [dict(module="MC_XCommon", cfg="MC_XCommon.cfg", workers=2, timeout=1800)]
+
+@prop("X09", "model_checking",
+      "MC: the or-shift cascade of ceiling_power_of_2 (16-bit scale) against 'the power of two r with r/2 < n <= r' for 0..40000, the formula of "
+      "lg_size_from_count against 'smallest g with n <= 2^g x load factor' for n <= 4096 and load factors 1/2, 3/4, 15/16 (1/4 is rejected: "
+      "negative configuration), and the std::string serde layout (decode(encode) = identity, length = sum of size_of_item, EVERY proper prefix refused) "
+      "for all 57 sequences of <= 2 strings of <= 2 bytes; traces: count_leading_zeros_in_u64/_u32 and count_trailing_zeros_in_u32/_u64 on 0, every "
+      "single bit, 2^k +- 1, masks and random values (0 -> width); ceiling_power_of_2 and log2 on the same 32-bit set; lg_size_from_count around every "
+      "power of two up to 2^23 for 4 load factors; all 256 entries of INVERSE_POWERS_OF_2 by their IEEE bit pattern; byteswap 2/4/8, stream write / "
+      "read / read_big_endian and the refused short read; check_memory_size / ensure_minimum_memory on a 6x6 grid; arithmetic serde for 7 types "
+      "(image = items back to back in little-endian order, bytes = stream, returned sizes, nothing written past the image, round trip, every shorter "
+      "capacity / truncation refused on all three paths) and std::string serde (32-bit length + bytes, empty strings, embedded NULs, size_of_item, same "
+      "checks, the contract's own decoder agrees); erf / normal_cdf against tabulated values (2e-6), odd / complementary; approximate Clopper-Pearson "
+      "bounds for n in {0..1000} x all k x {0.5,1,2,3} std devs: 0 <= lb <= k/n <= ub <= 1, widening with the std devs, never decreasing with k, "
+      "corners n = 0 / k = 0 / k = n, k > n refused with invalid_argument",
+      ["the platform is little-endian (the library's serde images are host order by definition)",
+       "ceiling_power_of_2(0) and above 2^31, log2(0), lg_size_from_count with a load factor below 1/2 are outside the documented domain: free",
+       "monotonicity of the binomial bounds in k is a property of the exact Clopper-Pearson interval; the approximation is required to keep it on the grid"])
+def run_x09(oc, repo, seed, tier):
+    mc_all(oc, X_COMMON_MC, tier)
+    oc.mc.append(core.model_check("MC_XCommon", "MC_XCommon_neg_lf.cfg", workers=2, expect_violation=True))
+    core.trace_job(oc, X_COMMON_JOB, repo, seed, tier)
